@@ -54,7 +54,11 @@ deriving DecidableEq, Repr, Inhabited
 def rexmitPhase : List SRec → Nat → Nat → List SRec × Nat × List TxItem
   | [], flight, _ => ([], flight, [])
   | r :: rest, flight, now =>
-    if r.needsRetransmit then
+    if r.needsRetransmit && r.acked then
+      -- marked by T3 / TLP and gap-acked since: the mark is dropped, nothing is sent
+      let x := rexmitPhase rest flight now
+      ({ r with needsRetransmit := false } :: x.1, x.2.1, x.2.2)
+    else if r.needsRetransmit then
       let fl := if r.inFlight then flight else flight + r.len
       let x := rexmitPhase rest fl now
       ({ r with inFlight := true, needsRetransmit := false, sentMs := now } :: x.1, x.2.1,
